@@ -126,6 +126,26 @@ var skeletonFuncs = [][3]string{
 	{"store.go", "primaryCtx", "Err"},
 	{"rwmutex.go", "RWMutexGuard", "Lock"},
 	{"rwmutex.go", "RWMutexGuard", "RLock"},
+	// the mount layer (driven without a kernel by harness/mount.go)
+	{"fuse/fuse.go", "", "ToError"},
+	{"fuse/database_node.go", "DatabaseHandle", "Write"},
+	{"fuse/database_node.go", "DatabaseNode", "Setattr"},
+	{"fuse/database_node.go", "", "lock"},
+	{"fuse/database_node.go", "", "queryLock"},
+	{"fuse/journal_node.go", "JournalHandle", "Write"},
+	{"fuse/journal_node.go", "JournalNode", "Setattr"},
+	{"fuse/wal_node.go", "WALHandle", "Write"},
+	{"fuse/root_node.go", "RootNode", "Lookup"},
+	{"fuse/root_node.go", "RootNode", "Create"},
+	{"fuse/root_node.go", "RootNode", "Remove"},
+	{"litefs.go", "", "ParseDatabaseLockRange"},
+	{"litefs.go", "", "ParseSHMLockRange"},
+	// the LiteFS Cloud backup client (driven against harness/lfsc_fake.go)
+	{"lfsc/backup_client.go", "BackupClient", "PosMap"},
+	{"lfsc/backup_client.go", "BackupClient", "WriteTx"},
+	{"lfsc/backup_client.go", "BackupClient", "FetchSnapshot"},
+	{"lfsc/backup_client.go", "BackupClient", "doRequest"},
+	{"lfsc/backup_client.go", "", "readResponseError"},
 }
 
 // genSkeletons renders, for each listed function, its control skeleton in source order:
